@@ -317,6 +317,12 @@ def invoke(func, ns, cwd, kernel=None, env=None, stdin_text=None, timeout=25):
     old_env = dict(os.environ)
     old_stdin = sys.stdin
     _reset_conductor_globals()
+    # The cycle collector stays off while the run is in progress: finalisers of garbage left by EARLIER runs (Popen objects,
+    # output handlers caught in traceback cycles) would otherwise run at allocator-dependent moments inside this run and show
+    # up as kernel calls / executed lines of it.  Objects of this run are still finalised by reference counting; what is left
+    # is collected between runs (below).
+    gc_was = gc.isenabled()
+    gc.disable()
     try:
         os.chdir(cwd)
         if env is not None:
@@ -365,6 +371,8 @@ def invoke(func, ns, cwd, kernel=None, env=None, stdin_text=None, timeout=25):
                 if _COUNT[0] % 50 == 0 or probe > 400:
                     gc.collect()      # unreachable Popen/pipe objects of earlier paths hold descriptors until collected
     finally:
+        if gc_was:
+            gc.enable()
         signal.signal(signal.SIGINT, old_int)
         signal.signal(signal.SIGTERM, old_term)
         os.chdir(old_cwd)
